@@ -216,7 +216,14 @@ fn in_pool<R: Send, F: FnOnce() -> R + Send>(threads: usize, f: F) -> R {
 const REPEAT: usize = 20;
 const POOLS: [usize; 3] = [1, 4, 16];
 
-fn do_repro_louv(g: &Arc<G>, t: &mut Toks, o: &mut Out) {
+/// the input graph built afresh (its hash maps get new keys, so their iteration order changes)
+fn rebuild(src: &Source) -> Arc<G> {
+    Arc::new(Graph::new_from_nodes_and_edges(src.0.clone(), src.1.clone(), src.2.clone()).expect("rebuild"))
+}
+
+type Source = (Vec<crate::hist::Nd>, Vec<crate::hist::E>, graphrs::GraphSpecs);
+
+fn do_repro_louv(g: &Arc<G>, src: &Source, t: &mut Toks, o: &mut Out) {
     let weighted = t.i() != 0;
     let gnum = t.i();
     let gden = t.i();
@@ -232,19 +239,40 @@ fn do_repro_louv(g: &Arc<G>, t: &mut Toks, o: &mut Out) {
     let stuck = |p: &(Option<Levels>, i64), c: &(Option<Vec<Vec<i64>>>, i64)| {
         p.1 == HANG || p.1 == SKIPPED || c.1 == HANG || c.1 == SKIPPED
     };
-    for _ in 0..REPEAT {
-        outs_p.push(call_partitions(g, weighted, res, thr, seed));
-        outs_c.push(call_communities(g, weighted, res, thr, seed));
+    // every repetition gets a freshly built input graph (freshly keyed hash tables)
+    let mut graphs: Vec<Arc<G>> = vec![g.clone()];
+    for i in 0..REPEAT {
+        let gi = if i == 0 { g.clone() } else { rebuild(src) };
+        outs_p.push(call_partitions(&gi, weighted, res, thr, seed));
+        outs_c.push(call_communities(&gi, weighted, res, thr, seed));
+        graphs.push(gi);
         if stuck(outs_p.last().unwrap(), outs_c.last().unwrap()) {
             break;
         }
     }
     if !stuck(outs_p.last().unwrap(), outs_c.last().unwrap()) {
         for k in POOLS {
-            let g2 = g.clone();
+            let g2 = rebuild(src);
             outs_p.push(in_pool(k, move || call_partitions(&g2, weighted, res, thr, seed)));
-            let g3 = g.clone();
+            let g3 = rebuild(src);
             outs_c.push(in_pool(k, move || call_communities(&g3, weighted, res, thr, seed)));
+        }
+    }
+    // a non-randomised function on the same inputs: modularity of the first result's last level on
+    // every rebuilt graph; equal up to floating-point rounding of sums
+    if let (Some(ls), _) = &outs_p[0] {
+        if let Some(last) = ls.last() {
+            let comms: Vec<HashSet<i64>> = last.iter().map(|c| c.iter().copied().collect()).collect();
+            let vals: Vec<f64> = graphs
+                .iter()
+                .filter_map(|gi| guard(|| partitions::modularity(&**gi, &comms, weighted, res)))
+                .filter_map(|r| r.ok())
+                .collect();
+            let lo = vals.iter().cloned().fold(f64::INFINITY, f64::min);
+            let hi = vals.iter().cloned().fold(f64::NEG_INFINITY, f64::max);
+            let all_nan = vals.iter().all(|v| v.is_nan());
+            let close = all_nan || (hi - lo).abs() <= 1e-9 * hi.abs().max(1.0);
+            o.obs(83, &[vec![close as i64, vals.len() as i64, graphs.len() as i64]], &[]);
         }
     }
     let mut dp = outs_p.clone();
@@ -330,9 +358,11 @@ pub fn run_case(lines: &[Vec<String>], o: &mut Out) {
             _ => calls.push(l),
         }
     }
+    let mut source: Option<Source> = None;
     let graph: Option<Arc<G>> = match specs {
         None => None,
         Some(sp) => {
+            source = Some((nodes.clone(), edges.clone(), sp.clone()));
             let r = guard(|| Graph::new_from_nodes_and_edges(nodes, edges, sp));
             o.obs(1, &[vec![res_code(&r)]], &[]);
             match r {
@@ -353,7 +383,7 @@ pub fn run_case(lines: &[Vec<String>], o: &mut Out) {
             ("mod", Some(g)) => do_mod(g, &mut t, o),
             ("louv", Some(g)) => do_louv(g, &mut t, o),
             ("repro", _) => match (t.s(), &graph) {
-                ("louv", Some(g)) => do_repro_louv(g, &mut t, o),
+                ("louv", Some(g)) => do_repro_louv(g, source.as_ref().unwrap(), &mut t, o),
                 ("gnp", _) => do_repro_gnp(&mut t, o),
                 _ => {}
             },
